@@ -88,6 +88,7 @@ def lib_from_ref(cells, route='builder'):
        'builder'  Builder(type_=t).store_bits(..).store_ref(..).end_cell()
        'tvm'      Cell(TvmBitarray, refs, type)
        'plain'    Cell(plain bitarray, refs, type)
+       'plain-le' Cell(plain bitarray with a little-endian buffer, refs, type)
     """
     from pytoniq_core.boc.cell import Cell
     from pytoniq_core.boc.builder import Builder
@@ -110,6 +111,9 @@ def lib_from_ref(cells, route='builder'):
             lc = Cell(ba, refs, t)
         elif route == 'plain':
             lc = Cell(bitarray(c.bits), refs, t)
+        elif route == 'plain-le':
+            # a plain bitarray whose BUFFER is little-endian; the bit sequence (what to01() / iteration give) is the same
+            lc = Cell(bitarray(c.bits, endian='little'), refs, t)
         else:
             raise ValueError(route)
         idx[id(c)] = len(out)
